@@ -899,6 +899,8 @@ def core_dependency(ctx, P, rule, fns, what, why, prefixes=()):
     """The C01 obligations on the context-switch core and on the blocking / waking functions `fns` a primitive is built on are
     obligations of that primitive's property too: they are evaluated here and a failure is reported under `rule`."""
     import check as _chk
+    if getattr(ctx, "nested", False):
+        return          # evaluated as somebody's dependency: C01 is reported where the dependent property is checked itself
     sub = _chk.Ctx("C01", ctx.tier, ctx.seed)
     sub._progs = ctx._progs
     sub.config = ctx.config
